@@ -23,26 +23,59 @@ class _Ctx:
     prop = "C05"
 
 
-def make_ops(rng):
-    """op list: 2..7 ops; 70 % op 8, the rest best-move ops"""
+def window(rng, rows, opt):
+    """a window (list of cell ids) aimed at the case splits of the enumeration"""
+    nonempty = [r for r in rows if r]
+    if not nonempty:
+        return []
+    def run(minlen, maxlen):
+        r = rng.choice(nonempty)
+        k = rng.randint(minlen, min(maxlen, max(minlen, len(r))))
+        k = min(k, len(r))
+        a = rng.randint(0, len(r) - k)
+        return r[a:a + k], r
+    t = rng.random()
+    if t < 0.40:                       # one run of 2..5 consecutive cells of a row
+        w, _ = run(2, 5)
+    elif t < 0.60:                     # two runs in two rows (2+2, 2+3, ...): cells may change row
+        w1, r1 = run(2, 3)
+        others = [r for r in nonempty if r is not r1]
+        if others:
+            r2 = rng.choice(others); k = min(len(r2), rng.randint(1, 3)); a = rng.randint(0, len(r2) - k)
+            w = w1 + r2[a:a + k]
+        else:
+            w = w1
+    elif t < 0.72:                     # two separate runs of the same row (two regions in one row)
+        r = rng.choice(nonempty)
+        if len(r) >= 5:
+            a = rng.randint(0, len(r) - 5); w = r[a:a + 2] + r[a + 3:a + 5]
+        else:
+            w = r[:2]
+    elif t < 0.82:                     # a whole row (both ends of the region are the row's)
+        r = rng.choice(nonempty); w = r[:5]
+    else:                              # arbitrary cells
+        w = [rng.choice(opt) for _ in range(rng.randint(1, 4))]
+    w = list(dict.fromkeys(w))
+    if rng.random() < 0.5:
+        rng.shuffle(w)                 # the order of the window decides the order of the regions
+    return w
+
+
+def make_ops(rng, rows, opt):
+    """op list: 2..6 ops; 75 % op 8 on a crafted window, the rest best-move ops that change the structure in between"""
     ops = []
-    n = rng.randint(2, 7)
-    for _ in range(n):
+    idx = {c: i for i, c in enumerate(opt)}
+    for _ in range(rng.randint(2, 6)):
         t = rng.random()
-        if t < 0.70:
-            k = rng.randint(1, 4)
-            if rng.random() < 0.5:
-                c0 = rng.randint(0, 40)
-                cells = [c0 + j for j in range(k)]          # neighbours in index (often neighbours in a row)
-                if rng.random() < 0.3:
-                    rng.shuffle(cells)
-            else:
-                cells = [rng.randint(0, 40) for _ in range(k)]
-            ops.append([8, k] + cells)
-        elif t < 0.80:
+        if t < 0.75 and opt:
+            w = window(rng, rows, opt)
+            if not w:
+                continue
+            ops.append([8, len(w)] + [idx[c] + len(opt) * rng.randint(0, 2) for c in w])
+        elif t < 0.85:
             k = rng.randint(1, 3)
             ops.append([0, rng.randint(0, 40), k] + [rng.randint(0, 40) for _ in range(k)])
-        elif t < 0.90:
+        elif t < 0.93:
             k = rng.randint(1, 3)
             ops.append([1, rng.randint(0, 40), rng.randint(0, 10), k] + [rng.randint(-1, 40) for _ in range(k)])
         else:
@@ -51,34 +84,78 @@ def make_ops(rng):
 
 
 def cases(ctx, count, seed, modes=(0, 16)):
+    """circuits of `dopt gen rand`; phase 1: legalize them (harness, no op) and read the row structure off the model (tag PS);
+    phase 2: op lists with windows taken from that structure"""
     harness = common.build_harness("dopt")
+    driver = common.build_driver("reorder")
     rng = random.Random(1000003 * seed + 17)
-    lines = []
+    base = []
     for m in modes:
         for l in common.harness_gen(harness, ["rand", seed + 70 + m, count // len(modes), m]):
             ctoks, ntoks = do.split_do(l)
             if len(ntoks) > 400:        # the 2^31 streams (hundreds of nets) are the business of checks/c05.py
                 continue
-            ops = make_ops(rng)
-            flat = [str(x) for o in ops for x in o]
-            lines.append("DO " + " ".join(ctoks) + " " + " ".join(ntoks) + " " + str(len(ops)) + " " + " ".join(flat))
+            base.append((ctoks, ntoks))
+    probe = ["DO " + " ".join(c) + " " + " ".join(n) + " 0" for c, n in base]
+    pout, _, _ = common.run_both([harness, "run"], None, probe, chunk=300, timeout=300)
+    sinp, keep = [], []
+    for (ctoks, ntoks), out in zip(base, pout):
+        if not out.startswith("INIT"):
+            continue
+        pl0 = [int(x) for x in out[4:].split(";")[1].split()]
+        sinp.append("PS " + " ".join(lc.with_placement(ctoks, pl0)))
+        keep.append((ctoks, ntoks))
+    sout, _, _ = common.run_both([driver], None, sinp, chunk=300, timeout=300)
+    lines = []
+    for (ctoks, ntoks), o in zip(keep, sout):
+        parts = o.split(";")
+        try:
+            rows = [[int(x) for x in p.split()] for p in parts[1:]]
+        except ValueError:
+            continue
+        opt = sorted(c for r in rows for c in r)
+        ops = make_ops(rng, rows, opt)
+        flat = [str(x) for o_ in ops for x in o_]
+        lines.append("DO " + " ".join(ctoks) + " " + " ".join(ntoks) + " " + str(len(ops)) + " " + " ".join(flat))
     return harness, lines
 
 
 def parse_p(seg):
-    """C++ op-8 segment 'P [n nreg xv yv] ; value ; placement ; check' -> (extra or None, value, placement)"""
+    """op-8 segment 'P xvalue yvalue [nleaves nregions] ; value ; placement [; check]' -> (head ints, value, placement)"""
     parts = [x.strip() for x in seg.split(";")]
-    head = parts[0].split()[1:]
-    return (head if head else None), parts[1], " ".join(parts[2].split())
+    return parts[0].split()[1:], parts[1], " ".join(parts[2].split())
 
 
-def run_reorder(ctx, count, seed, modes=(0, 16)):
+def modelled_prefix_has_reordering(line):
+    """does the op list of a DO line reach an op 8 through ops 0 / 1 / 2 / 8 only?"""
+    for ty, args in do.op_types(line):
+        if ty == 8:
+            return True
+        if ty not in (0, 1, 2):
+            return False
+    return False
+
+
+_cache = {}
+
+
+def run_reorder(ctx, count, seed, modes=(0, 16), extra=None):
+    """extra = (lines, impl) of the direct-drive run of checks/dopt_common.py: its runs whose op list reaches a runReorderingOnCells
+    through best-move ops only are compared too (up to the first op of another kind)"""
+    key = (count, seed, tuple(modes), extra is not None)
+    if key in _cache:
+        return _cache[key]
     ctx = ctx if ctx is not None else _Ctx()
     harness, lines = cases(ctx, count, seed, modes)
     driver = common.build_driver("reorder")
     impl, _, _ = common.run_both([harness, "run"], None, lines, chunk=300, timeout=300)
-    res = {"runs": 0, "reorder_ops": 0, "reorder_ops_2plus_cells": 0, "changed_placement": 0, "multi_region": 0,
-           "leaves_compared": 0, "leaves_total": 0, "best_ops": 0, "windows_no_leaf": 0,
+    n_own = len(lines)
+    if extra is not None:
+        for l, o in zip(extra[0], extra[1]):
+            if len(do.split_do(l)[1]) <= 400 and modelled_prefix_has_reordering(l):
+                lines.append(l); impl.append(o)
+    res = {"runs": 0, "reorder_ops": 0, "changed_placement": 0, "multi_region": 0,
+           "leaves_compared": 0, "leaves_total": 0, "max_leaves": 0, "best_ops": 0, "windows_no_leaf": 0, "changed_row": 0,
            "mismatch": [], "driver_fail": [], "throws": [], "samples": []}
     pinp, pmap = [], []
     for i, (l, out) in enumerate(zip(lines, impl)):
@@ -109,7 +186,9 @@ def run_reorder(ctx, count, seed, modes=(0, 16)):
                     res["mismatch"].append((lines[i], a[:300], m[:300], "op %d" % k))
                     break
                 continue
-            if a.startswith("THROW") or m.startswith("P THROW") or m == "STOP":
+            if m == "STOP":
+                break
+            if a.startswith("THROW") or m.startswith("P THROW"):
                 if a.startswith("THROW") and m.startswith("P THROW"):
                     res["throws"].append((lines[i], a[:200], m[:200], "op %d: both sides throw" % k))
                 else:
@@ -128,26 +207,34 @@ def run_reorder(ctx, count, seed, modes=(0, 16)):
                 ca, va, pla = parse_p(a)
                 cm, vm, plm = parse_p(m)
                 res["reorder_ops"] += 1
-                nleaves, nreg = int(cm[0]), int(cm[1])
+                nleaves, nreg = int(cm[2]), int(cm[3])
                 res["leaves_total"] += nleaves
+                res["max_leaves"] = max(res["max_leaves"], nleaves)
                 res["windows_no_leaf"] += nleaves == 0
                 res["multi_region"] += nreg >= 2
-                if (va, pla) != (vm, plm):
-                    res["mismatch"].append((lines[i], "value %s placement %s" % (va, pla), "value %s placement %s" % (vm, plm), "runReorderingOnCells op %d" % k))
+                # value() and the exported circuit, both model values; leaf and region counts when the C++ reports them (hook)
+                if (va, pla, ca[:2]) != (vm, plm, cm[:2]):
+                    res["mismatch"].append((lines[i], "xvalue yvalue %s value %s placement %s" % (" ".join(ca[:2]), va, pla),
+                                            "xvalue yvalue %s value %s placement %s" % (" ".join(cm[:2]), vm, plm), "runReorderingOnCells op %d" % k))
                     break
-                if ca is not None:
+                if len(ca) >= 4:
                     res["leaves_compared"] += 1
-                    if ca != cm:
-                        res["mismatch"].append((lines[i], "leaves regions xvalue yvalue = " + " ".join(ca), "leaves regions xvalue yvalue = " + " ".join(cm), "runReorderingOnCells op %d" % k))
+                    if ca[2:4] != cm[2:4]:
+                        res["mismatch"].append((lines[i], "leaves regions = " + " ".join(ca[2:4]), "leaves regions = " + " ".join(cm[2:4]), "runReorderingOnCells op %d" % k))
                         break
                 if pla != prev:
                     res["changed_placement"] += 1
+                    rowchg = any(x != y for x, y in zip(pla.split()[1::3], prev.split()[1::3]))
+                    res["changed_row"] += rowchg
                     if len(res["samples"]) < 5:
                         res["samples"].append(lines[i][:400])
                 prev = pla
                 continue
             res["mismatch"].append((lines[i], a[:300], m[:300], "op %d: the two sides ran different kinds of op" % k))
             break
+    res["cases_made_here"] = n_own
+    res["cases_from_dopt_run"] = len(lines) - n_own
+    _cache[key] = res
     return res
 
 
